@@ -20,3 +20,5 @@ def run(chk):
     wrapper_contracts.wrapper_obligations(chk, "C11", want=("C11",))
     batcher.check_collect(chk, "C11")      # updates reach the API in hand-over order (a child's START after its parent's START)
     batcher.check_consumer(chk, "C11")
+    from . import c19
+    c19.counter_sequence(chk, "C11.ids.counter_atomic")    # distinct positions get distinct ids: no second START for an id that belongs to another operation
